@@ -81,17 +81,31 @@ def scenarios(rng: random.Random, tier: str):
             evs = []
             pool = [7001, 7002, 7003]
             nreq = 0
-            for _ in range(rng.randrange(4, 9 if tier == "quick" else 13)):
+            unanswered = []
+            for _ in range(rng.randrange(4, 13)):
                 origin = rng.choice([0, 0, 1])
                 e2e = rng.choice(pool)
                 flags = rng.choice([192, 208, 208])
                 # hop-by-hop ids: mostly fresh, sometimes equal on the two connections
                 hbh = n() if rng.random() < 0.7 else 555
                 evs.append(f"rx {origin} " + nodegen.ccr(hbh, e2e, ["peer1.x", "peer2.x"][origin], flags=flags))
+                unanswered.append(nreq)
                 nreq += 1
-                if rng.random() < 0.7:
-                    evs.append(f"ans 0 {rng.randrange(0, nreq)} 2001")
+                if rng.random() < 0.75 and unanswered:
+                    k = unanswered.pop(rng.randrange(len(unanswered))) if rng.random() < 0.8 else rng.randrange(0, nreq)
+                    evs.append(f"ans 0 {k} 2001")
             out.append(pre + " | " + " | ".join(evs))
+    # the same id answered twice (repeat without T), window just full, then a T-flagged repeat
+    for rq in (2, 3, 4):
+        pre = (cfg_line(rq) + " | start | acc | rx 0 " + nodegen.cer("peer1.x", "4", n(), n()))
+        evs = []
+        ids = [7100, 7100] + [7101 + i for i in range(rq - 1)]
+        for i, e in enumerate(ids):
+            evs.append("rx 0 " + nodegen.ccr(n(), e, "peer1.x"))
+            evs.append(f"ans 0 {i} 2001")
+        evs.append("rx 0 " + nodegen.ccr(n(), 7100, "peer1.x", flags=208))
+        evs.append("rx 0 " + nodegen.ccr(n(), 7101, "peer1.x", flags=208))
+        out.insert(0, pre + " | " + " | ".join(evs))
     return out
 
 
